@@ -25,16 +25,72 @@ def calls_to_string(node):
                for c in ast.walk(node))
 
 
-def open_info(call):
+class Consts:
+    """string constants a name can be resolved to: module-level `NAME = 'lit'` and class-body `X = 'lit'`
+    bindings that are assigned exactly once in the module and never written through an attribute"""
+    def __init__(self, module):
+        self.mod = {}
+        self.cls = {}
+        bad = set()
+        if module is None:
+            return
+        for st in module.body:
+            if isinstance(st, ast.Assign) and len(st.targets) == 1 and isinstance(st.targets[0], ast.Name):
+                n = st.targets[0].id
+                if n in self.mod or n in bad:
+                    bad.add(n); self.mod.pop(n, None)
+                elif isinstance(st.value, ast.Constant) and isinstance(st.value.value, str):
+                    self.mod[n] = st.value.value
+                else:
+                    bad.add(n)
+        for c in ast.walk(module):
+            if isinstance(c, ast.ClassDef):
+                for st in c.body:
+                    if isinstance(st, ast.Assign) and len(st.targets) == 1 and isinstance(st.targets[0], ast.Name) \
+                            and isinstance(st.value, ast.Constant) and isinstance(st.value.value, str):
+                        n = st.targets[0].id
+                        if n in self.cls and self.cls[n] != st.value.value:
+                            self.cls[n] = None       # defined differently in two classes: not resolvable by name alone
+                        elif n not in self.cls:
+                            self.cls[n] = st.value.value
+        # any write `something.X = ...` or `global X` rebinding disqualifies X
+        for n in ast.walk(module):
+            if isinstance(n, (ast.Assign, ast.AugAssign)):
+                for t in (n.targets if isinstance(n, ast.Assign) else [n.target]):
+                    if isinstance(t, ast.Attribute):
+                        self.cls[t.attr] = None
+            if isinstance(n, ast.Global):
+                for g in n.names:
+                    self.mod.pop(g, None)
+
+    def resolve(self, e):
+        """the string an expression certainly evaluates to, else None"""
+        if isinstance(e, ast.Constant) and isinstance(e.value, str):
+            return e.value
+        if isinstance(e, ast.Name):
+            return self.mod.get(e.id)
+        if isinstance(e, ast.Attribute) and isinstance(e.value, ast.Name):
+            return self.cls.get(e.attr)
+        return None
+
+
+def open_info(call, consts=None):
     mode = 'r'
     enc = None
-    if len(call.args) >= 2 and isinstance(call.args[1], ast.Constant):
-        mode = call.args[1].value
+    def const(e):
+        if isinstance(e, ast.Constant):
+            return e.value
+        return consts.resolve(e) if consts is not None else None
+    if len(call.args) >= 2:
+        m = const(call.args[1])
+        mode = m if m is not None else '?'
     for kw in call.keywords:
-        if kw.arg == 'mode' and isinstance(kw.value, ast.Constant):
-            mode = kw.value.value
+        if kw.arg == 'mode':
+            m = const(kw.value)
+            mode = m if m is not None else '?'
         if kw.arg == 'encoding':
-            enc = kw.value.value if isinstance(kw.value, ast.Constant) else '?'
+            v = const(kw.value)
+            enc = v if v is not None else '?'
     return mode, enc
 
 
@@ -43,114 +99,253 @@ def is_open_call(c):
                                         (isinstance(c.func, ast.Attribute) and c.func.attr == 'open'))
 
 
-def write_prog(fn):
-    """effects of XMLScorePartwise.write in program order"""
+def write_prog(fn, consts=None):
+    """effects of XMLScorePartwise.write in program order, by a small symbolic evaluation: a local is bound to a
+    string literal (LIT), to the serialised document (CONTENT: the value of a `to_string(...)` call), or to a
+    tuple / list of those; `f.write(x)`, `f.writelines(xs)` and `for c in xs: f.write(c)` are unrolled.
+    Anything that may raise or compute between `open` and the last write is reported, never guessed at."""
     effs = []
-    content_vars = set()
+    env = {}
 
-    def stmt(s):
+    def value(e, in_file):
+        """symbolic value of an expression: ('lit', s) | ('content',) | ('seq', [...]) | None; records `compute`"""
+        lit = consts.resolve(e) if consts is not None else (e.value if isinstance(e, ast.Constant) and isinstance(e.value, str) else None)
+        if lit is not None:
+            return ('lit', lit)
+        if isinstance(e, ast.Name) and e.id in env:
+            return env[e.id]
+        if isinstance(e, ast.Call) and isinstance(e.func, ast.Attribute) and e.func.attr == 'to_string':
+            effs.append(('writeCompute',) if in_file else ('compute',))
+            return ('content',)
+        if isinstance(e, (ast.Tuple, ast.List)):
+            vs = [value(x, in_file) for x in e.elts]
+            return ('seq', vs) if all(v is not None for v in vs) else None
+        if isinstance(e, ast.BinOp) and isinstance(e.op, ast.Add):
+            l, r = value(e.left, in_file), value(e.right, in_file)
+            if l is not None and r is not None:
+                return ('seq', [l, r])
+            return None
+        if isinstance(e, ast.JoinedStr):
+            vs = []
+            for part in e.values:
+                if isinstance(part, ast.Constant):
+                    vs.append(('lit', part.value))
+                elif isinstance(part, ast.FormattedValue) and part.conversion == -1 and part.format_spec is None:
+                    v = value(part.value, in_file)
+                    if v is None:
+                        return None
+                    vs.append(v)
+                else:
+                    return None
+            return ('seq', vs)
+        return None
+
+    def emit(v):
+        if v is None:
+            effs.append(('unknown', 'write of a value that is not a literal / the serialised document'))
+        elif v[0] == 'lit':
+            if v[1] != '':
+                effs.append(('writeLit', v[1]))
+        elif v[0] == 'content':
+            effs.append(('writeContent',))
+        else:
+            for x in v[1]:
+                emit(x)
+
+    def stmt(s, fvars):
         if isinstance(s, ast.Expr) and isinstance(s.value, ast.Constant):
             return  # docstring
-        if isinstance(s, ast.Assign) and calls_to_string(s.value) and all(isinstance(t, ast.Name) for t in s.targets):
+        if isinstance(s, ast.Pass):
+            return
+        if isinstance(s, ast.Assign) and all(isinstance(t, ast.Name) for t in s.targets):
+            v = value(s.value, bool(fvars))
+            if v is None:
+                effs.append(('unknown', 'local bound to ' + ast.dump(s.value)[:60]))
             for t in s.targets:
-                content_vars.add(t.id)
-            effs.append(('compute',))
+                env[t.id] = v
             return
         if isinstance(s, ast.With):
+            names = set(fvars)
             for item in s.items:
                 if is_open_call(item.context_expr):
-                    mode, enc = open_info(item.context_expr)
-                    if 'w' in mode or 'a' in mode or '+' in mode or 'x' in mode:
+                    mode, enc = open_info(item.context_expr, consts)
+                    if 'w' in mode or 'a' in mode or '+' in mode or 'x' in mode or mode == '?':
                         effs.append(('openTrunc' if 'w' in mode else 'openOther', 'b' in mode, enc))
                     else:
                         effs.append(('openRead',))
+                    if isinstance(item.optional_vars, ast.Name):
+                        names.add(item.optional_vars.id)
                 else:
                     effs.append(('unknown', ast.dump(item.context_expr)[:80]))
             for b in s.body:
-                stmt(b)
+                stmt(b, names)
             effs.append(('close',))
             return
         if isinstance(s, ast.Expr) and isinstance(s.value, ast.Call) and isinstance(s.value.func, ast.Attribute) \
-                and s.value.func.attr == 'write' and len(s.value.args) == 1:
-            a = s.value.args[0]
-            if isinstance(a, ast.Constant) and isinstance(a.value, str):
-                effs.append(('writeLit', a.value))
-            elif isinstance(a, ast.Name) and a.id in content_vars:
-                effs.append(('writeContent',))
-            elif calls_to_string(a):
-                effs.append(('writeCompute',))
-            else:
-                effs.append(('unknown', ast.dump(a)[:80]))
-            return
-        if isinstance(s, ast.Pass):
-            return
+                and isinstance(s.value.func.value, ast.Name) and s.value.func.value.id in fvars and len(s.value.args) == 1:
+            if s.value.func.attr == 'write':
+                emit(value(s.value.args[0], True))
+                return
+            if s.value.func.attr == 'writelines':
+                v = value(s.value.args[0], True)
+                emit(v if v is not None and v[0] == 'seq' else None)
+                return
+        if isinstance(s, ast.For) and isinstance(s.target, ast.Name) and not s.orelse:
+            v = value(s.iter, bool(fvars))
+            if v is not None and v[0] == 'seq':
+                for x in v[1]:
+                    env[s.target.id] = x
+                    for b in s.body:
+                        stmt(b, fvars)
+                return
         effs.append(('unknown', ast.dump(s)[:80]))
 
     for s in fn.body:
-        stmt(s)
+        stmt(s, set())
     return effs
 
 
-def lazy_prog(fn, cell='_XSD_ATTRIBUTES'):
-    """statements of a lazily filled class-level table"""
-    prog = []
-    local_lists = set()
+def lazy_prog(fn, cell='_XSD_ATTRIBUTES', module=None):
+    """The lazily filled class-level table, normalised to the abstract program the thread model runs:
+        ifNone; newLocal; appendLocal*; publishLocal; endIf; retShared
+    ("work on local objects only, publish the finished object with ONE assignment, never touch the
+    published object again"). The analysis is semantic enough to survive ordinary refactorings
+    (guard clause instead of an enclosing `if`, helper calls, re-assigned locals, nested control
+    flow) and reports anything else as `unknown`:
+      * the shared cell may be read only in the None test and in `return cell`;
+      * it is written exactly once, with a local name that was bound in this call to an expression that does
+        not mention the cell;
+      * nothing is mutated after that assignment; no in-place mutation of the cell anywhere;
+      * no other function of the module writes or mutates the cell (class-body initialisers aside)."""
+    if fn is None:
+        return [('unknown', 'function not found')]
 
     def is_cell(n):
         return isinstance(n, ast.Attribute) and n.attr == cell
 
-    def walk_body(body, inside):
-        for s in body:
-            if isinstance(s, ast.If):
-                t = s.test
-                if isinstance(t, ast.Compare) and is_cell(t.left) and len(t.ops) == 1 and isinstance(t.ops[0], ast.Is) \
-                        and isinstance(t.comparators[0], ast.Constant) and t.comparators[0].value is None:
-                    prog.append(('ifNone',))
-                    walk_body(s.body, True)
-                    prog.append(('endIf',))
-                    if s.orelse:
-                        prog.append(('unknown', 'else branch of the None test'))
-                else:
-                    walk_body(s.body, inside)
-                    walk_body(s.orelse, inside)
-            elif isinstance(s, (ast.For, ast.While)):
-                walk_body(s.body, inside)
-                walk_body(s.orelse, inside)
-            elif isinstance(s, ast.Assign):
-                tg = s.targets[0]
-                if is_cell(tg):
-                    v = s.value
-                    if isinstance(v, ast.List) and not v.elts:
-                        prog.append(('publishEmpty',))
-                    elif isinstance(v, ast.Name) and v.id in local_lists:
-                        prog.append(('publishLocal',))
-                    else:
-                        prog.append(('unknown', 'assignment to the shared cell: ' + ast.dump(v)[:60]))
-                elif isinstance(tg, ast.Name) and isinstance(s.value, ast.List) and not s.value.elts:
-                    local_lists.add(tg.id)
-                    prog.append(('newLocal',))
-                else:
-                    pass  # other local computations
-            elif isinstance(s, ast.Expr) and isinstance(s.value, ast.Call) and isinstance(s.value.func, ast.Attribute) \
-                    and s.value.func.attr in ('append', 'extend'):
-                obj = s.value.func.value
-                if is_cell(obj):
-                    prog.append(('appendShared',))
-                elif isinstance(obj, ast.Name) and obj.id in local_lists:
-                    prog.append(('appendLocal',))
-                else:
-                    prog.append(('unknown', 'append to ' + ast.dump(obj)[:60]))
-            elif isinstance(s, ast.Return):
-                if is_cell(s.value):
-                    prog.append(('retShared',))
-                else:
-                    prog.append(('unknown', 'return ' + (ast.dump(s.value)[:60] if s.value else 'None')))
-            elif isinstance(s, ast.Expr) and isinstance(s.value, ast.Constant):
-                pass
+    def mentions_cell(n):
+        return any(is_cell(x) for x in ast.walk(n))
+
+    def none_test(t):
+        """'is' / 'isnot' for `cell is None` / `cell is not None`, else None"""
+        if isinstance(t, ast.Compare) and is_cell(t.left) and len(t.ops) == 1 and \
+                isinstance(t.comparators[0], ast.Constant) and t.comparators[0].value is None:
+            return 'is' if isinstance(t.ops[0], ast.Is) else 'isnot' if isinstance(t.ops[0], ast.IsNot) else None
+        return None
+
+    body = [st for st in fn.body if not (isinstance(st, ast.Expr) and isinstance(st.value, ast.Constant))]
+    fill = None
+    if len(body) == 2 and isinstance(body[0], ast.If) and none_test(body[0].test) == 'is' and not body[0].orelse \
+            and isinstance(body[1], ast.Return) and is_cell(body[1].value):
+        fill = body[0].body                                   # if cell is None: FILL ; return cell
+    elif len(body) >= 3 and isinstance(body[0], ast.If) and none_test(body[0].test) == 'isnot' and not body[0].orelse \
+            and len(body[0].body) == 1 and isinstance(body[0].body[0], ast.Return) and is_cell(body[0].body[0].value) \
+            and isinstance(body[-1], ast.Return) and is_cell(body[-1].value):
+        fill = body[1:-1]                                     # if cell is not None: return cell ; FILL ; return cell
+    if fill is None:
+        return [('unknown', 'not a lazily filled table: expected `if cell is None: ...; return cell` or the guard-clause form')]
+
+    MUT = {'append', 'extend', 'insert', 'remove', 'pop', 'clear', 'sort', 'reverse', 'update', 'add', 'discard', 'setdefault'}
+    prog = [('ifNone',)]
+    local_work = 0
+    published = [False]
+    locals_ = set()
+
+    def simple(st):
+        nonlocal local_work
+        if isinstance(st, ast.Assign) and len(st.targets) == 1 and is_cell(st.targets[0]):
+            v = st.value
+            if published[0]:
+                prog.append(('unknown', 'second assignment to the shared cell'))
+            elif isinstance(v, ast.Name) and v.id in locals_:
+                published[0] = True
+                prog.append(('publishLocal',))
+            elif isinstance(v, (ast.List, ast.Dict, ast.Set)) and not getattr(v, 'elts', getattr(v, 'keys', [])):
+                published[0] = True
+                prog.append(('publishEmpty',))
             else:
-                pass
-    walk_body(fn.body, False)
-    return prog
+                prog.append(('unknown', 'assignment to the shared cell: ' + ast.dump(v)[:60]))
+            return
+        if isinstance(st, (ast.Assign, ast.AugAssign, ast.AnnAssign)):
+            tgts = st.targets if isinstance(st, ast.Assign) else [st.target]
+            val = st.value
+            if any(mentions_cell(t) for t in tgts):
+                prog.append(('appendShared',) if isinstance(st, ast.AugAssign) else ('unknown', 'write through the shared cell'))
+                return
+            if val is not None and mentions_cell(val):
+                prog.append(('unknown', 'a local is bound to (an expression of) the shared cell'))
+                return
+            for t in tgts:
+                for n in ast.walk(t):
+                    if isinstance(n, ast.Name):
+                        locals_.add(n.id)
+            if published[0]:
+                prog.append(('unknown', 'work after the table was published'))
+            else:
+                local_work += 1
+            return
+        if isinstance(st, ast.Expr) and isinstance(st.value, ast.Call) and isinstance(st.value.func, ast.Attribute) \
+                and st.value.func.attr in MUT:
+            obj = st.value.func.value
+            if mentions_cell(obj):
+                prog.append(('appendShared',))
+            elif mentions_cell(st.value):
+                prog.append(('unknown', 'the shared cell is passed to a mutating call'))
+            elif published[0]:
+                prog.append(('unknown', 'mutation after the table was published'))
+            else:
+                local_work += 1
+            return
+        if isinstance(st, (ast.Pass, ast.Continue, ast.Break)):
+            return
+        if isinstance(st, ast.Return):
+            prog.append(('unknown', 'return inside the filling part'))
+            return
+        if mentions_cell(st):
+            prog.append(('unknown', 'the shared cell is used while it is being filled: ' + ast.dump(st)[:60]))
+            return
+        if published[0] and not (isinstance(st, ast.Expr) and isinstance(st.value, ast.Constant)):
+            prog.append(('unknown', 'work after the table was published'))
+
+    def walk(stmts):
+        for st in stmts:
+            if isinstance(st, (ast.If, ast.While)):
+                if mentions_cell(st.test):
+                    prog.append(('unknown', 'the shared cell is tested while it is being filled'))
+                walk(st.body); walk(st.orelse)
+            elif isinstance(st, ast.For):
+                if mentions_cell(st.iter):
+                    prog.append(('unknown', 'iteration over the shared cell'))
+                for n in ast.walk(st.target):
+                    if isinstance(n, ast.Name):
+                        locals_.add(n.id)
+                walk(st.body); walk(st.orelse)
+            elif isinstance(st, ast.Try):
+                walk(st.body)
+                for h in st.handlers:
+                    walk(h.body)
+                walk(st.orelse); walk(st.finalbody)
+            elif isinstance(st, ast.With):
+                walk(st.body)
+            else:
+                simple(st)
+
+    walk(fill)
+    # normal form: all local work before the single publishing assignment
+    out = [('ifNone',)]
+    rest = prog[1:]
+    if local_work:
+        out.append(('newLocal',))
+        out += [('appendLocal',)] * (local_work - 1)
+    out += rest
+    out += [('endIf',), ('retShared',)]
+    # the cell must not be touched by any other function of the module (a helper that hands the shared
+    # list out, writes it or mutates it would defeat the analysis above)
+    if module is not None:
+        for other in ast.walk(module):
+            if isinstance(other, ast.FunctionDef) and other is not fn and mentions_cell(other):
+                out.append(('unknown', 'the shared cell is also used in %s' % other.name))
+    return out
 
 
 def class_level_writes(repo):
@@ -216,15 +411,17 @@ def open_sites(repo):
     sites = []
     for rel in RUNTIME:
         tree = ast.parse(src(repo, rel))
+        consts = Consts(tree)
         for n in ast.walk(tree):
             if is_open_call(n):
-                mode, enc = open_info(n)
+                mode, enc = open_info(n, consts)
                 sites.append({'file': rel, 'line': n.lineno, 'mode': mode, 'encoding': enc})
             if isinstance(n, ast.Call) and isinstance(n.func, ast.Attribute) and n.func.attr in ('read_text', 'write_text'):
                 enc = None
                 for kw in n.keywords:
                     if kw.arg == 'encoding':
-                        enc = kw.value.value if isinstance(kw.value, ast.Constant) else '?'
+                        v = consts.resolve(kw.value)
+                        enc = v if v is not None else '?'
                 sites.append({'file': rel, 'line': n.lineno, 'mode': 'r' if n.func.attr == 'read_text' else 'w', 'encoding': enc})
     return sites
 
@@ -236,11 +433,11 @@ def lean_str(s):
 def main(repo, out_json, out_lean):
     xe = ast.parse(src(repo, 'musicxml/xmlelement/xmlelement.py'))
     wfn = find_func(xe, 'XMLScorePartwise', 'write')
-    wp = write_prog(wfn) if wfn else [('unknown', 'write not found')]
+    wp = write_prog(wfn, Consts(xe)) if wfn else [('unknown', 'write not found')]
     ct = ast.parse(src(repo, 'musicxml/xsd/xsdcomplextype.py'))
     at = ast.parse(src(repo, 'musicxml/xsd/xsdattribute.py'))
-    lp1 = lazy_prog(find_func(ct, 'XSDComplexType', 'get_xsd_attributes'))
-    lp2 = lazy_prog(find_func(at, 'XSDAttributeGroup', 'get_xsd_attributes'))
+    lp1 = lazy_prog(find_func(ct, 'XSDComplexType', 'get_xsd_attributes'), module=ct)
+    lp2 = lazy_prog(find_func(at, 'XSDAttributeGroup', 'get_xsd_attributes'), module=at)
     sites = open_sites(repo)
     clsw = class_level_writes(repo)
     cmut = class_mutables(repo)
